@@ -463,7 +463,10 @@ func (r *c18Run) doReq(ev c18Event) {
 // doRetry offers the inputs of a failed attempt again with the fee rate the
 // publisher handed back (UtxoSweeper.markInputsPublishFailed).
 func (r *c18Run) doRetry() {
-	if r.req == nil || r.lastRes == nil {
+	if r.req == nil || r.lastRes == nil || r.lastRes.Event != TxFailed || r.lastRes.FeeRate == 0 {
+		return
+	}
+	if _, ok := r.tp.records.Load(r.rec.requestID); ok {
 		return
 	}
 	req := *r.req
@@ -491,7 +494,10 @@ func (r *c18Run) done() {
 
 // doInit is handleInitialBroadcast + initializeTx, call by call.
 func (r *c18Run) doInit(height int64, chk, pub []string) {
-	if r.rec == nil {
+	if r.rec == nil || r.rec.tx != nil || r.rec.feeFunction != nil {
+		return // only a fresh record gets an initial broadcast
+	}
+	if _, ok := r.tp.records.Load(r.rec.requestID); !ok {
 		return
 	}
 	r.height = height
@@ -720,12 +726,30 @@ func (r *c18Run) freeFF(rng *rand.Rand, i int, all bool) {
 	default:
 		ct = rng.Int63n(1012)
 	}
+	roundClass := rng.Intn(12) == 0
+	if roundClass {
+		// the rounding class of the in-tree Alloy model: widths >= 1001 and a
+		// difference d with 1000*d mod width in (500, width/2): delta is
+		// rounded down and delta*width/1000 rounds to d-1, so that only the
+		// "position >= width" shortcut makes the ceiling exact
+		w := 1001 + rng.Int63n(10)
+		roundClass = false
+		for d0 := int64(1); d0 <= w; d0++ {
+			if m := (1000 * d0) % w; m > 500 && 2*m < w {
+				ct = w + 1
+				d = d0 + w*rng.Int63n(300)
+				end = start + d
+				roundClass = true
+				break
+			}
+		}
+	}
 	ev := c18Event{A: "New", MaxRate: end, Ct: ct, Sopt: start, Est: 0, Relay: relay}
-	if rng.Intn(3) == 0 { // estimator instead of an explicit start
+	if !roundClass && rng.Intn(3) == 0 { // estimator instead of an explicit start
 		ev.Sopt = -1
 		ev.Est = c18Pick(rng, -1, relay-1, relay, start, end, end+1000, end/2+relay)
 	}
-	if all && rng.Intn(4) == 0 { // outside the main domain: explicit start beyond the ends
+	if all && !roundClass && rng.Intn(4) == 0 { // outside the main domain: explicit start beyond the ends
 		ev.Sopt = c18Pick(rng, end+1+rng.Int63n(5000), relay-1-rng.Int63n(200))
 	}
 	rs := r.base("Reset")
@@ -734,6 +758,13 @@ func (r *c18Run) freeFF(rng *rand.Rand, i int, all bool) {
 	r.ff = nil
 	r.tp = nil
 	r.doNew(ev)
+	if roundClass {
+		r.doBumpFF(ct - rng.Int63n(ct))
+		r.doBumpFF(2)
+		r.doBumpFF(1)
+		r.doInc()
+		return
+	}
 	r.walk(rng, ct)
 }
 
@@ -789,21 +820,69 @@ func (r *c18Run) freePub(rng *rand.Rand, i int, all bool) {
 			DeadlineHeight: fn.Some(int32(deadline)), StartingFeeRate: sopt}, DeadlineHeight: int32(deadline)}
 		inputs[in.OutPoint()] = si
 	}
+	r.change = c18Script(byte(c18Pick(rng, 'k', 't')), 0x7777)
+	kinds := make([]byte, nnorm)
+	for k := range kinds {
+		kinds[k] = byte(c18Pick(rng, 'k', 'k', 't'))
+	}
+	// tuned: required outputs plus plain inputs worth just about the fee, so
+	// that the change falls around the dust limit and the fee around the budget
+	tuned := nreq > 0 && nnorm > 0 && nnorm <= 2 && rng.Intn(2) == 0
+	var tunedVal, tunedBudget int64
+	if tuned {
+		var dummy []input.Input
+		for _, k := range kinds {
+			dummy = append(dummy, r.mkInput(k, 1000, -1))
+		}
+		for k := 0; k < nreq; k++ {
+			dummy = append(dummy, r.mkInput('k', 1000, 1000))
+		}
+		w, err := calcSweepTxWeight(dummy, [][]byte{r.change})
+		if err != nil {
+			r.t.Fatal(err)
+		}
+		if rng.Intn(3) > 0 {
+			r.wallet.utxos = nil // nothing to top up with: the sweep goes ahead short of budget
+		}
+		rt := relay + rng.Int63n(4000)
+		if rng.Intn(2) == 0 { // dust from the first tx on
+			rt = relay + rng.Int63n(120)
+			r.est.est = relay + c18Pick(rng, 0, 50)
+		}
+		fee := int64(chainfee.SatPerKWeight(rt).FeeForWeight(w))
+		tunedVal = fee + rng.Int63n(700)
+		tunedBudget = fee + rng.Int63n(900) - 150
+	}
 	for k := 0; k < nnorm; k++ {
 		v := c18Pick(rng, 330, 600, 2000, 10000, 50000, 200000) + rng.Int63n(5000)
-		kind := byte('k')
-		if rng.Intn(3) == 0 {
-			kind = 't'
-		}
 		b := v / c18Pick(rng, 2, 2, 3, 10, 1)
 		if rng.Intn(6) == 0 {
 			b = v + rng.Int63n(2000) // a budget above the input's value
 		}
-		add(r.mkInput(kind, v, -1), b)
+		if tuned {
+			v = tunedVal / int64(nnorm)
+			if k == 0 {
+				v += tunedVal % int64(nnorm)
+			}
+			b = relay*300/1000 + 1 // just enough to pass the aggregator's filter
+			tunedBudget -= b
+		}
+		add(r.mkInput(kinds[k], v, -1), b)
 	}
 	for k := 0; k < nreq; k++ {
 		v := c18Pick(rng, 200, 330, 1000, 20000, 100000) + rng.Int63n(300)
-		add(r.mkInput('k', v, v), v/c18Pick(rng, 2, 4, 20))
+		b := v / c18Pick(rng, 2, 4, 20)
+		if tuned {
+			v = 20000 + rng.Int63n(1000)
+			if tunedBudget < int64(nreq) {
+				tunedBudget = int64(nreq)
+			}
+			b = tunedBudget / int64(nreq)
+			if k == 0 {
+				b += tunedBudget % int64(nreq)
+			}
+		}
+		add(r.mkInput('k', v, v), b)
 	}
 
 	agg := NewBudgetAggregator(r.est, 100, fn.None[AuxSweeper]())
@@ -820,7 +899,6 @@ func (r *c18Run) freePub(rng *rand.Rand, i int, all bool) {
 		}
 		nwallet = len(set.Inputs()) - before
 	}
-	r.change = c18Script(byte(c18Pick(rng, 'k', 't')), 0x7777)
 	req := &BumpRequest{
 		Inputs:          set.Inputs(),
 		Budget:          set.Budget(),
@@ -838,7 +916,7 @@ func (r *c18Run) freePub(rng *rand.Rand, i int, all bool) {
 		req.Budget = lim
 	}
 	// budgets on the rounding boundaries of budget/weight
-	if rng.Intn(3) == 0 {
+	if !tuned && rng.Intn(3) == 0 {
 		rate := relay + rng.Int63n(300000)
 		req.Budget = chainfee.SatPerKWeight(rate).FeeForWeight(w) + btcutil.Amount(rng.Intn(int(w)/1000+3))
 	}
